@@ -617,6 +617,14 @@ impl OcflRepo {
                 break;
             }
 
+            if src_version_num == inventory.head && *src_path == dst_path {
+                errors.push(format!(
+                    "Failed to copy file {}: Source and destination are the same",
+                    src_path
+                ));
+                continue;
+            }
+
             let attempt = || -> Result<()> {
                 info!(
                     "Copying file {} from {} to {}",
@@ -709,6 +717,14 @@ impl OcflRepo {
         for (src_path, dst_path) in to_move {
             if self.is_closed() {
                 break;
+            }
+
+            if *src_path == dst_path {
+                errors.push(format!(
+                    "Failed to move file {}: Source and destination are the same",
+                    src_path
+                ));
+                continue;
             }
 
             info!("Moving {} to {}", src_path, dst_path);
